@@ -322,19 +322,17 @@ impl<M: RawMutex + 'static, A: RingBuf<Item = Val> + 'static> Exec for SharedCha
             [14] if !self.senders.is_empty() => {
                 // result codes of the model: [last?] ++ [newly closed?] if last
                 let ob = self.observer.as_ref().unwrap();
-                let last = self.senders.len() == 1;
                 let was_closed = ob.verif_state().0;
                 let s = self.senders.pop().unwrap();
                 let ok = lib(move || drop(s)).is_some();
-                o.r = if !ok { vec![R_PANIC] } else if last { vec![rbool(true), rbool(!was_closed && ob.verif_state().0)] } else { vec![rbool(false)] };
+                o.r = if !ok { vec![R_PANIC] } else { vec![rbool(!was_closed && ob.verif_state().0)] };
             }
             [16] if !self.receivers.is_empty() => {
                 let ob = self.observer.as_ref().unwrap();
-                let last = self.receivers.len() == 1;
                 let was_closed = ob.verif_state().0;
                 let r = self.receivers.pop().unwrap();
                 let ok = lib(move || drop(r)).is_some();
-                o.r = if !ok { vec![R_PANIC] } else if last { vec![rbool(true), rbool(!was_closed && ob.verif_state().0), R_UNIT] } else { vec![rbool(false)] };
+                o.r = if !ok { vec![R_PANIC] } else { vec![rbool(!was_closed && ob.verif_state().0)] };
             }
             [20] => {
                 self.teardown();
